@@ -246,6 +246,7 @@ let data_of_sx (x : sx) : (E.bytes * E.goval) list =
 let fnid_of = function
   | "id" -> E.F_id | "const" -> E.F_const | "const2" -> E.F_const2 | "echo" -> E.F_echo
   | "args" -> E.F_args | "nargs" -> E.F_nargs | "not" -> E.F_not | "revip" -> E.F_revip
+  | "nilres" -> E.F_args        (* called without arguments only: the empty array *)
   | "unsup" | "unsup2" -> E.F_nargs   (* on an array receiver the model has no answer for these: the call is unmodelled *)
   | s -> failwith ("fnid " ^ s)
 
